@@ -257,6 +257,7 @@ func checkC09(c *Ctx) {
 	c.c09NoBlock(pm)
 	c.c09File(pm)
 	c.c09El(pm)
+	c.c09Pool()
 	// the retention visit takes part in the linearisation only if what it does to the store
 	// is a set of removals by id of the messages it tested (decided by C12's scan rule): a
 	// bulk operation acts on whatever the mailbox holds later, which no sequential order of
@@ -1616,5 +1617,206 @@ func (c *Ctx) c09Bucket() {
 		r.Bad("C09/GUARD/file", cons, p.Pos(get.Pos()), "the bucket lock is chosen by the first %d hash digits but mailboxes share the directory mail/<first %d digits>, which removeDir prunes and createDir re-creates under that lock only: two mailboxes in one directory but different buckets race (a delivery's MkdirAll fails with ENOENT while a sibling mailbox is being emptied)", lockK, dirK)
 	default:
 		r.Ok("C09/GUARD/file", cons, p.Pos(get.Pos()), "lock index uses the first %d hash digits, the shallowest shared mailbox directory the first %d: every pair of mailboxes sharing a directory shares the lock", lockK, dirK)
+	}
+}
+
+// c09Pool: an object drawn from a sync.Pool belongs to the function that drew it until it is
+// put back, and to nobody afterwards. A function that hands the object back — directly or
+// through a wrapper, deferred or not — must not let it (or anything built around it: a
+// decoder, a reader, a slice of its buffer) outlive the hand-back: not return it, not store
+// it in a field, not pass it to a goroutine, not use it after a non-deferred Put. Otherwise two
+// store operations running at once read through one buffer: torn listings, corrupt-index
+// errors, and a corrupt index written back over a good one.
+func (c *Ctx) c09Pool() {
+	r, p := c.R, c.P
+	rule := "C09/POOL/no-escape"
+	r.Rule(rule, "in the storage packages a value handed back to a sync.Pool (Put, or a wrapper whose parameter goes to Put), and every object constructed around it, does not escape the function that hands it back (no return, field store or goroutine) and is not used after a non-deferred hand-back")
+	var fns []*ssa.Function
+	for _, rel := range []string{fileRel, "pkg/storage/mem", "pkg/storage"} {
+		fns = append(fns, pkgFuncs(p, rel)...)
+	}
+	// put functions: sync.Pool.Put and module wrappers whose parameter reaches it
+	putParam := map[*ssa.Function]int{}
+	for changed := true; changed; {
+		changed = false
+		for _, fn := range fns {
+			if _, done := putParam[fn]; done {
+				continue
+			}
+			fn := fn
+			eng.EachInstr(fn, func(in ssa.Instruction) {
+				cc := eng.CallOf(in)
+				if cc == nil {
+					return
+				}
+				idx := -1
+				if eng.CalleeName(cc) == "(*sync.Pool).Put" && len(cc.Args) == 2 {
+					idx = 1
+				} else if g := eng.StaticCallee(cc); g != nil {
+					if k, ok := putParam[g]; ok && k < len(cc.Args) {
+						idx = k
+					}
+				}
+				if idx < 0 {
+					return
+				}
+				if pi := eng.ParamIndex(eng.Unwrap(cc.Args[idx])); pi >= 0 {
+					if _, done := putParam[fn]; !done {
+						putParam[fn] = pi
+						changed = true
+					}
+				}
+			})
+		}
+	}
+	aliasing := func(t types.Type) bool {
+		if n, ok := t.(*types.Named); ok && n.Obj().Pkg() == nil && n.Obj().Name() == "error" {
+			return false
+		}
+		switch t.Underlying().(type) {
+		case *types.Pointer, *types.Interface, *types.Slice, *types.Map, *types.Chan, *types.Struct, *types.Signature:
+			return true
+		}
+		return false
+	}
+	n := 0
+	ord := map[string]int{}
+	for _, fn := range fns {
+		if _, isWrapper := putParam[fn]; isWrapper {
+			continue // the wrapper hands back its caller's object; the caller is examined
+		}
+		fn := fn
+		eng.EachInstr(fn, func(in ssa.Instruction) {
+			cc := eng.CallOf(in)
+			if cc == nil {
+				return
+			}
+			idx := -1
+			if eng.CalleeName(cc) == "(*sync.Pool).Put" && len(cc.Args) == 2 {
+				idx = 1
+			} else if g := eng.StaticCallee(cc); g != nil {
+				if k, ok := putParam[g]; ok && k < len(cc.Args) {
+					idx = k
+				}
+			}
+			if idx < 0 {
+				return
+			}
+			n++
+			cons := siteCons(p, in, ord, "put")
+			root := eng.Unwrap(cc.Args[idx])
+			// everything built around the pooled object in this function
+			derived := map[ssa.Value]bool{root: true}
+			for grew := true; grew; {
+				grew = false
+				eng.EachInstr(fn, func(x ssa.Instruction) {
+					v, isV := x.(ssa.Value)
+					if !isV || derived[v] {
+						return
+					}
+					hit := false
+					switch y := x.(type) {
+					case *ssa.Call:
+						if !aliasing(y.Type()) {
+							return
+						}
+						if y.Call.IsInvoke() && derived[y.Call.Value] {
+							hit = true
+						}
+						for _, a := range y.Call.Args {
+							if derived[a] || derived[eng.Unwrap(a)] {
+								hit = true
+							}
+						}
+					case *ssa.Extract:
+						hit = derived[y.Tuple] && aliasing(y.Type())
+					case *ssa.MakeInterface:
+						hit = derived[y.X]
+					case *ssa.ChangeType:
+						hit = derived[y.X]
+					case *ssa.ChangeInterface:
+						hit = derived[y.X]
+					case *ssa.TypeAssert:
+						hit = derived[y.X]
+					case *ssa.Slice:
+						hit = derived[y.X]
+					case *ssa.Phi:
+						for _, e := range y.Edges {
+							hit = hit || derived[e]
+						}
+					}
+					if hit {
+						derived[v] = true
+						grew = true
+					}
+				})
+			}
+			_, deferred := in.(*ssa.Defer)
+			why := ""
+			eng.EachInstr(fn, func(x ssa.Instruction) {
+				if why != "" {
+					return
+				}
+				switch y := x.(type) {
+				case *ssa.Return:
+					for _, res := range eng.ReturnResults(y) {
+						if derived[res] || derived[eng.Unwrap(res)] {
+							why = "it (or an object built around it) is returned at " + p.InstrPos(x)
+						}
+					}
+				case *ssa.Store:
+					if derived[y.Val] || derived[eng.Unwrap(y.Val)] {
+						switch a := y.Addr.(type) {
+						case *ssa.FieldAddr:
+							if _, local := a.X.(*ssa.Alloc); !local {
+								why = "it (or an object built around it) is stored in a field at " + p.InstrPos(x)
+							}
+						case *ssa.Global:
+							why = "it (or an object built around it) is stored in a package variable at " + p.InstrPos(x)
+						}
+					}
+				case *ssa.Go:
+					for _, a := range y.Call.Args {
+						if derived[a] {
+							why = "it (or an object built around it) is handed to a goroutine at " + p.InstrPos(x)
+						}
+					}
+					if mc, ok := y.Call.Value.(*ssa.MakeClosure); ok {
+						for _, b := range mc.Bindings {
+							if derived[b] {
+								why = "it (or an object built around it) is captured by a goroutine at " + p.InstrPos(x)
+							}
+						}
+					}
+				}
+			})
+			if why == "" && !deferred {
+				uses := func(x ssa.Instruction) bool {
+					if x == in {
+						return false
+					}
+					if _, isDbg := x.(*ssa.DebugRef); isDbg {
+						return false
+					}
+					for _, op := range x.Operands(nil) {
+						if op != nil && *op != nil && derived[*op] {
+							return true
+						}
+					}
+					return false
+				}
+				if hit := (&eng.Search{Target: uses}).After(in); hit != nil {
+					why = "it (or an object built around it) is still used at " + p.InstrPos(hit) + " after the hand-back"
+				}
+			}
+			if why != "" {
+				r.Bad(rule, cons, p.InstrPos(in), "%s hands a pooled object back at %s although %s: the next store operation draws the same object and both read through one buffer (torn listings, corrupt-index errors, a damaged index written back)", shortFn(fn), p.InstrPos(in), why)
+			} else {
+				r.Ok(rule, cons, p.InstrPos(in), "the pooled object and the %d values built around it stay inside %s", len(derived)-1, shortFn(fn))
+			}
+		})
+	}
+	if n == 0 {
+		r.Ok(rule, "no-pool", "", "the storage packages hand nothing back to a sync.Pool")
 	}
 }
